@@ -1124,3 +1124,292 @@ def rule_dynamic_order(ctx):
         n += 1
         ctx.ob('C16.dynorder', g, '%s() visits the members in position order' % nm, ok,
                'iteration over `%s`' % '; '.join(norm(s_)[:40] for s_ in src) if not ok else 'positions (or the names in index order)', node=g.node)
+
+
+# ===================================================================== rules after seeded round 7 (operators, properties,
+# class constants, tables)
+
+def rule_omit_empty_modes(ctx):
+    """A1.omit: only the canonical codecs leave out an OPTIONAL component whose contents are empty; the BER record encoder
+    writes what it is given (`omitEmptyOptionals` evaluates to False for BER, True for CER / DER), so that a present, empty
+    OPTIONAL SEQUENCE OF survives a BER round trip."""
+    want = {'codec.ber.encoder.SequenceEncoder': False, 'codec.cer.encoder.SequenceEncoder': True}
+    for q, w in want.items():
+        c = ctx.cls(q)
+        _, v = ctx.ev.class_attr(c, 'omitEmptyOptionals')
+        ctx.ob('A1.omit', q, 'omitEmptyOptionals is %r' % w, v is w,
+               'evaluates to %r: %s' % (v, 'BER drops a present OPTIONAL component with empty contents (`30 05 02 01 05 30 00` re-encodes as '
+                                        '`30 03 02 01 05`)' if w is False else 'the canonical codecs keep empty OPTIONAL components'),
+               node=(c.module.relpath, c.node.lineno))
+
+
+def rule_bitstring_equality(ctx):
+    """W.biteq: two BIT STRINGs are equal when value AND length agree ('01'B is not '1'B; ''B is not '000'B).  The DEFAULT
+    test of the record encoders is `component == default`: `__eq__` answers True only through the identity shortcut or
+    through a conjunction that compares the two lengths; `__ne__` compares the lengths as well."""
+    from sa.cfg import known_at
+    c = ctx.cls('type.univ.BitString')
+    for nm, lenop in (('__eq__', ast.Eq), ('__ne__', ast.NotEq)):
+        f = c.method(nm)
+        cfg = ctx.cfg(f)
+        for r in cfg.stmt_nodes():
+            if not (isinstance(r.ast, ast.Return) and r.ast.value is not None):
+                continue
+            v = r.ast.value
+            lens = [x for x in ast.walk(v) if isinstance(x, ast.Compare) and len(x.ops) == 1 and isinstance(x.ops[0], lenop) and
+                    isinstance(x.left, ast.Call) and norm(x.left.func) == 'len' and
+                    isinstance(x.comparators[0], ast.Call) and norm(x.comparators[0].func) == 'len']
+            ident = isinstance(v, ast.Constant) and v.value is (nm == '__eq__') and known_at(cfg, r, 'self is %s' % f.params()[1], True)
+            ok = bool(lens) or ident
+            ctx.ob('W.biteq', f, '`%s` compares the lengths' % norm(r.ast)[:60], ok,
+                   'this answer does not depend on the two lengths: bit strings that differ only in leading zero bits compare equal, and a '
+                   'DEFAULT BIT STRING component holding such a value is left out by DER' if not ok else 'len(..) %s len(..)' % ('==' if nm == '__eq__' else '!='),
+                   node=r.ast)
+
+
+def rule_effective_tag_recurses(ctx):
+    """A10.efftag: the effective tag set of an untagged CHOICE is the EFFECTIVE tag set of the chosen alternative (which may
+    itself be an untagged CHOICE), not its plain tag set."""
+    f = ctx.func('type.univ.Choice.effectiveTagSet')
+    rets = [r for r in walk_own(f.node) if isinstance(r, ast.Return) and r.value is not None]
+    other = [r for r in rets if norm(r.value) != 'self.tagSet']
+    if not other:
+        raise AnalysisError('untagged arm of %s not found' % f.short)
+    for r in other:
+        ok = isinstance(r.value, ast.Attribute) and r.value.attr == 'effectiveTagSet'
+        ctx.ob('A10.efftag', f, '`%s` follows nested untagged CHOICEs' % norm(r)[:50], ok,
+               'the plain tag set of a nested untagged CHOICE is empty: the SET / OPTIONAL-run / CHOICE decoders cannot place the value '
+               '("Type <TagSet object, untagged> not found")' if not ok else 'recursive', node=r)
+
+
+def rule_reflected_add_prepends(ctx):
+    """W.radd: `x + s` with a string object `s` on the right puts x FIRST.  The constructed-string decoders accumulate
+    `octets += segmentObject` (a nested indefinite-length segment comes back as an object), which is `segmentObject.__radd__(octets)`:
+    in every `__radd__` of the string-like types the receiver's own value is the RIGHT operand."""
+    n = 0
+    for q in ('type.univ.OctetString', 'type.univ.ObjectIdentifier', 'type.univ.RelativeOID', 'type.char.AbstractCharacterString'):
+        try:
+            c = ctx.cls(q)
+        except Exception:
+            continue
+        d = c.own('__radd__') if hasattr(c, 'own') else None
+        if d is None or d[0] != 'func':
+            continue
+        f = d[1]
+        par = f.params()[1]
+        for r in walk_own(f.node):
+            if not (isinstance(r, ast.Return) and r.value is not None):
+                continue
+            n += 1
+            adds = [x for x in ast.walk(r.value) if isinstance(x, ast.BinOp) and isinstance(x.op, ast.Add)]
+            ok = bool(adds) and all(norm(x.right) == 'self._value' and par in names_of(x.left) for x in adds)
+            ctx.ob('W.radd', f, '`%s` puts the left operand first' % norm(r)[:60], ok,
+                   'the value of the receiver is not the right operand of the concatenation: `b"a" + OctetString("bc")` comes out reversed, and a '
+                   'constructed string with a nested indefinite-length segment after another segment is reassembled in the wrong order' if not ok else
+                   'value + self._value', node=r)
+    if n < 2:
+        raise AnalysisError('W.radd: reflected additions not found')
+
+
+def rule_eos_by_position_only_inmemory(ctx):
+    """A12.eospos: "the position is at the end" answers "has the stream ended?" only for an in-memory `io.BytesIO`.  The test
+    that selects the seek-to-end branch of `isEndOfStream` is exactly that isinstance test: anything else that claims to be
+    seekable (the caching wrapper, a growing file) can only say where ITS data ends so far."""
+    f = ctx.func('codec.streaming.isEndOfStream')
+    cfg = ctx.cfg(f)
+    seeks = [n for n in cfg.stmt_nodes() if n.ast is not None and any(
+        isinstance(c, ast.Call) and isinstance(c.func, ast.Attribute) and c.func.attr == 'seek' and len(c.args) == 2 and 'SEEK_END' in norm(c.args[1])
+        for e in _exprs(n) for c in ast.walk(e))]
+    if not seeks:
+        ctx.ob('A12.eospos', f, 'no position-based answer', True, 'isEndOfStream does not seek to the end', note=True)
+        return
+    par = f.params()[0]
+    from sa.cfg import _cuts, _literals
+    for sk in seeks:
+        ok = False
+        why = 'the seek-to-end is not behind an isinstance(.., io.BytesIO) test'
+        for t in cfg.nodes:
+            if t.kind != 'test' or t.ast is None or not _cuts(cfg, t, 'true', sk):
+                continue
+            kind, lits = _literals(t.ast.test)
+            texts = [tx for tx, pol, e in lits if pol]
+            if kind in ('lit', 'and') and any(tx in ('isinstance(%s, io.BytesIO)' % par, 'isinstance(%s, BytesIO)' % par) for tx in texts):
+                ok = True
+            elif kind == 'or':
+                why = 'the branch is also taken for `%s`' % ' / '.join(tx for tx in texts if 'BytesIO' not in tx)
+        ctx.ob('A12.eospos', f, 'the seek-to-end answer is given for io.BytesIO only', ok,
+               '%s: behind the caching wrapper the end of the CACHE is taken for the end of the stream, and the items after the first are '
+               'never decoded' % why if not ok else 'isinstance(substrate, io.BytesIO)', node=sk.ast)
+
+
+def rule_derived_tables_fresh_instances(ctx):
+    """A1.shared: the CER / DER tables start as shallow copies of their parent's, so the codec INSTANCES in them are shared
+    with BER.  Module-level code of a derived codec module stores attributes only on instances it has just made
+    (`x = x.__class__()`; `X()`), never on one taken out of a table - otherwise using DER once changes what BER accepts."""
+    n = 0
+    for mq in ('codec.cer.decoder', 'codec.der.decoder', 'codec.cer.encoder', 'codec.der.encoder', 'codec.native.decoder', 'codec.native.encoder'):
+        m = ctx.mod(mq)
+        body = [s for s in m.tree.body if not isinstance(s, (ast.FunctionDef, ast.ClassDef, ast.Import, ast.ImportFrom))]
+        for top in body:
+            stores = [a for a in ast.walk(top) if isinstance(a, ast.Assign) and any(
+                isinstance(t, ast.Attribute) and isinstance(t.value, ast.Name) for t in a.targets)]
+            for a in stores:
+                for t in a.targets:
+                    if not (isinstance(t, ast.Attribute) and isinstance(t.value, ast.Name)):
+                        continue
+                    var = t.value.id
+                    n += 1
+                    # definitions of `var` in the same top-level statement that precede the store
+                    defs = [x for x in ast.walk(top) if isinstance(x, ast.Assign) and x.lineno < a.lineno and
+                            any(isinstance(tt, ast.Name) and tt.id == var for tt in x.targets)]
+                    fresh = bool(defs) and isinstance(defs[-1].value, ast.Call) and (
+                        norm(defs[-1].value.func).endswith('.__class__') or (isinstance(defs[-1].value.func, (ast.Name, ast.Attribute)) and
+                                                                           norm(defs[-1].value.func)[:1].isupper()))
+                    ctx.ob('A1.shared', mq, '`%s` (line %d) is stored on a freshly made instance' % (norm(a)[:50], a.lineno), fresh,
+                           '`%s` comes out of a table copied from the parent codec: the instance is shared, so this store changes the parent '
+                           'codec too (after one DER decode, BER refuses constructed character strings)' % var if not fresh else
+                           'instance made at line %d' % defs[-1].lineno, node=(m.relpath, a.lineno))
+    if n < 1:
+        raise AnalysisError('A1.shared: no attribute store in the derived codec modules (strict-string loop of the DER decoder vanished)')
+
+
+def rule_set_constraint_operators(ctx):
+    """C14.setops: `A - B` of two value-set constraints denotes the set difference (members of A not in B), `A + B` the
+    union: the operator methods build the result from `difference` / `-` and `union` / `|` of the member sets."""
+    c = ctx.cls('type.constraint.SingleValueConstraint')
+    want = {'__sub__': (('difference',), (ast.Sub,)), '__add__': (('union',), (ast.BitOr,))}
+    for nm, (meths, ops) in want.items():
+        f = c.method(nm)
+        if f is None:
+            raise AnalysisError('SingleValueConstraint.%s does not resolve' % nm)
+        rets = [r for r in walk_own(f.node) if isinstance(r, ast.Return) and r.value is not None]
+        ok = bool(rets)
+        for r in rets:
+            calls = [x.func.attr for x in ast.walk(r.value) if isinstance(x, ast.Call) and isinstance(x.func, ast.Attribute) and
+                     x.func.attr in ('difference', 'union', 'symmetric_difference', 'intersection')]
+            bops = [type(x.op) for x in ast.walk(r.value) if isinstance(x, ast.BinOp) and isinstance(x.op, (ast.Sub, ast.BitOr, ast.BitXor, ast.BitAnd))]
+            good = (calls and all(k in meths for k in calls) and not bops) or (bops and all(o in ops for o in bops) and not calls)
+            ok = ok and bool(good)
+        ctx.ob('C14.setops', f, '`%s` is the set %s' % (nm, 'difference' if nm == '__sub__' else 'union'), ok,
+               'built with another set operation: `Alphabet("abcde") - Alphabet("defg")` admits "f" and "g"' if not ok else 'as named', node=f.node)
+
+
+def rule_spec_is_callers(ctx):
+    """A6.specparam: the scalar payload decoders hand `_createComponent` the guiding type they were GIVEN (or None): a local
+    re-definition of `asn1Spec` from the prototype makes every schemaless result lose the tag set recovered from the wire."""
+    from sa.cfg import reaching_defs
+    n = 0
+    for mq in ('codec.ber.decoder', 'codec.cer.decoder', 'codec.der.decoder'):
+        m = ctx.mod(mq)
+        for f in ctx.prog.all_functions():
+            if f.module is not m or f.cls is None or f.name not in ('valueDecoder', 'indefLenValueDecoder'):
+                continue
+            calls = [c for c in walk_own(f.node) if isinstance(c, ast.Call) and norm(c.func) == 'self._createComponent' and c.args and
+                     isinstance(c.args[0], ast.Name)]
+            if not calls:
+                continue
+            cfg = ctx.cfg(f)
+            rd = reaching_defs(cfg, f.params())
+            for c in calls:
+                node = [x for x in cfg.stmt_nodes() if any(c is y for e in _exprs(x) for y in ast.walk(e))]
+                if not node:
+                    continue
+                var = c.args[0].id
+                if var != f.params()[2 if f.params()[0] == 'self' else 1]:
+                    continue        # only the guiding-type parameter itself (ANY builds a separate component spec on purpose)
+                bad = [d for d in rd[node[0]].get(var, ()) if d.kind == 'stmt' and isinstance(d.ast, ast.Assign) and 'protoComponent' in norm(d.ast.value)]
+                n += 1
+                ctx.ob('A6.specparam', f, '`%s` gets the guiding type it was given' % norm(c)[:50], not bad,
+                       '`%s` may be the prototype (line %d): `_createComponent` then clones it WITHOUT the tag set recovered from the wire - an '
+                       'explicitly tagged BOOLEAN decoded without a schema re-encodes without its tag' % (var, bad[0].ast.lineno) if bad else 'parameter', node=c)
+    if n < 8:
+        raise AnalysisError('A6.specparam: found only %d _createComponent calls' % n)
+
+
+def rule_native_of_decoders(ctx):
+    """A1.nativeof: in the native decoder, SET OF and SEQUENCE OF resolve (by type id, else by base tag - the run-time order) to
+    the list decoder, SET and SEQUENCE to the record decoder: the two pairs share their tags, so only the by-type table
+    can tell them apart."""
+    from sa.rules.tables import dec_chain
+    d = dec_chain(ctx, 'native')
+    for cname, want_of in (('type.univ.SequenceOf', True), ('type.univ.SetOf', True), ('type.univ.Sequence', False), ('type.univ.Set', False)):
+        tc = ctx.cls(cname)
+        _, tid = ctx.ev.class_attr(tc, 'typeId')
+        _, ts = ctx.ev.class_attr(tc, 'tagSet')
+        inst = d['TYPE_MAP'].d.get(tid)
+        how = 'TYPE_MAP'
+        if inst is None:
+            inst = d['TAG_MAP'].d.get(ts)
+            how = 'TAG_MAP (no entry by type id)'
+        name = inst.ci.name if isinstance(inst, VInstance) else repr(inst)
+        ok = isinstance(inst, VInstance) and (('OfOr' in name or name.endswith('OfPayloadDecoder') and 'Of' in name.replace('PayloadDecoder', '')[-2:] or 'SequenceOf' in name or 'SetOf' in name) == want_of)
+        ctx.ob('A1.nativeof', 'codec.native.decoder', '%s is decoded by the %s decoder' % (cname.split('.')[-1], 'list' if want_of else 'record'), ok,
+               'resolves through %s to %s: `decode([3, 1, 2], asn1Spec=SetOf(Integer()))` silently returns a schema object' % (how, name) if not ok else
+               '%s via %s' % (name, how), node=(ctx.mod('codec.native.decoder').relpath, 1))
+
+
+def rule_schema_plugs(ctx):
+    """A10.plug: operations on a valueless (schema) scalar raise the library's error because `NoValue` installs a raising plug
+    for every special method EXCEPT the ones listed in `NoValue.skipMethods`.  That list holds only attribute access, object
+    life-cycle and representation hooks - not comparison, hashing, arithmetic, conversion, length or container methods."""
+    c = ctx.cls('type.base.NoValue')
+    d = c.own('skipMethods')
+    if d is None or d[0] != 'value' or not isinstance(d[1], (ast.Set, ast.Tuple, ast.List)):
+        raise AnalysisError('NoValue.skipMethods is not a literal collection')
+    names = [e.value for e in d[1].elts if isinstance(e, ast.Constant)]
+    allowed = {'__slots__', '__getattribute__', '__getattr__', '__setattr__', '__delattr__', '__class__', '__init__', '__del__', '__new__',
+               '__repr__', '__qualname__', '__objclass__', 'im_class', '__sizeof__', '__getstate__', '__setstate__', '__doc__', '__dict__',
+               '__weakref__', '__module__', '__subclasshook__', '__init_subclass__', '__reduce__', '__reduce_ex__', '__dir__', '__format__',
+               '__getinitargs__', '__getnewargs__', '__getnewargs_ex__'}
+    extra = sorted(n_ for n_ in names if n_ not in allowed)
+    ctx.ob('A10.plug', 'type.base.NoValue', 'skipMethods lists no value-level operation', not extra,
+           '%s exempted from the raising plug: that operation on a schema object returns data instead of failing (hash(Integer()) is a '
+           'number, `x in {..}` works)' % ', '.join(extra) if extra else '%d life-cycle / attribute hooks' % len(names),
+           node=(c.module.relpath, c.node.lineno))
+
+
+def rule_strict_boolean_results(ctx):
+    """A1.strictres: the CER / DER BOOLEAN decoder hands out a result only after the contents octet has been tested: every
+    result it yields is built by `_createComponent(...)` from the value chosen by that test - no other expression of the
+    wire octet is yielded (a `native` fast path in front of the test would accept 01 .. FE)."""
+    f = ctx.func('codec.cer.decoder.BooleanPayloadDecoder.valueDecoder')
+    loops = [lp for lp in walk_own(f.node) if isinstance(lp, ast.For)]
+    loop_vars = set(lp.target.id for lp in loops if isinstance(lp.target, ast.Name))
+    n = 0
+    for y in walk_own(f.node):
+        if not isinstance(y, ast.Yield) or y.value is None:
+            continue
+        if isinstance(y.value, ast.Name) and y.value.id in loop_vars:
+            continue            # an underrun object handed on
+        n += 1
+        ok = isinstance(y.value, ast.Call) and norm(y.value.func) == 'self._createComponent'
+        ctx.ob('A1.strictres', f, '`yield %s` is a component built after the 00 / FF test' % norm(y.value)[:40], ok,
+               'a result is yielded without going through `_createComponent` (and the test in front of it): non-canonical BOOLEAN octets '
+               'are accepted on this path' if not ok else '_createComponent', node=y)
+    if n < 1:
+        raise AnalysisError('A1.strictres: result yield not found in %s' % f.short)
+
+
+def rule_set_members_keep_spec(ctx):
+    """C13.setspec: when the CER / DER SET encoder is guided by a schema, every member is paired with the SCHEMA's component
+    type (`asn1Spec[idx]`) before sorting and encoding - also a member that happens to be a value object: it is the
+    schema's tags that go on the wire, as in the BER encoder."""
+    from sa.cfg import known_at
+    f = ctx.func('codec.cer.encoder.SetEncoder.encodeValue')
+    cfg = ctx.cfg(f)
+    n = 0
+    for nd in cfg.stmt_nodes():
+        for e in _exprs(nd):
+            for c in ast.walk(e):
+                if isinstance(c, ast.Call) and isinstance(c.func, ast.Attribute) and c.func.attr == 'append' and len(c.args) == 1 and \
+                        isinstance(c.args[0], ast.Tuple) and len(c.args[0].elts) == 2:
+                    if not known_at(cfg, nd, 'asn1Spec is None', False):
+                        continue
+                    n += 1
+                    spec = c.args[0].elts[1]
+                    ok = isinstance(spec, ast.Subscript) and norm(spec.value) == 'asn1Spec'
+                    ctx.ob('C13.setspec', f, '`%s` pairs the member with the schema component' % norm(c)[:60], ok,
+                           'under a schema the member is paired with `%s`: a value object given for a re-tagged component is written with its '
+                           'own tags and the type rejects the encoding' % norm(spec) if not ok else 'asn1Spec[idx]', node=c)
+    if n < 1:
+        raise AnalysisError('C13.setspec: schema arm of %s not found' % f.short)
